@@ -32,6 +32,8 @@ mod server;
 mod state;
 mod store;
 mod util;
+#[cfg(iroh_verif)]
+pub mod verif_hooks;
 
 pub use crate::{metrics::Metrics, server::Server};
 
